@@ -411,12 +411,14 @@ def snpClosure (P : Parsers Cert Roots Time) := snpClosureWith false P
 
 /-! ## extractsev, extract -/
 
-/-- the loop of extractsev.CheckCertTable: ranges in 64 bits (no wrap), running total of the lengths -/
+/-- the loop of extractsev.CheckCertTable: ranges in 64 bits (no wrap), running total of the lengths; a range
+    must also end below 2^32 (abi.CertTable.Unmarshal computes the end in 32 bits) -/
 def checkRanges (tableLen : Nat) : Nat → List (Nat × Nat) → M Unit
   | _, [] => M.pure ()
   | total, (off, len) :: rest => do
     tick
     if off + len > tableLen then fail "range"
+    else if off + len > 4294967295 then fail "range"
     else if total + len > tableLen then fail "overlap"
     else checkRanges tableLen (total + len) rest
 
